@@ -62,6 +62,14 @@ Conf(x) == RatSub(One, x)
 ConfLess(x, th) == x # NaNR /\ RatLess(Conf(x), th)
 ConfLeq(x, th)  == x # NaNR /\ RatLeq(Conf(x), th)
 
+\* the decision "confidence < theta * eta" with eta ~ N(1, delta): an environment choice (`want`, read off the
+\* observed result) in general; with a negligible delta (P.Sharp: the harness constructs the manager with
+\* delta = 1e-9) the deviate decides exact ties only; a NaN confidence never compares true
+WantEff(P, x, th, want) ==
+    IF x = NaNR THEN FALSE
+    ELSE IF P.Sharp /\ ~RatEq(Conf(x), th) THEN RatLess(Conf(x), th)
+    ELSE want
+
 ThetaFixed(P) == RatAdd(<<1, P.K>>, RatMul(P.B, RatSub(One, <<1, P.K>>)))
 
 \* ---- BIQF helpers ---------------------------------------------------------
@@ -91,7 +99,7 @@ SimStep(P, st, x, rnd, want) ==
            IN [st |-> [st EXCEPT !.u = Decay(P, st.u, d)], d |-> d]
       [] P.kind \in {"Variable", "RandomVariable"} ->
            LET left == LeftW(P, st.u)
-               d == left /\ (IF P.kind = "Variable" THEN ConfLess(x, st.th) ELSE want)
+               d == left /\ (IF P.kind = "Variable" THEN ConfLess(x, st.th) ELSE WantEff(P, x, st.th, want))
                th2 == IF ~left THEN st.th ELSE IF d THEN Down(P, st.th) ELSE Up(P, st.th)
            IN [st |-> [st EXCEPT !.u = Decay(P, st.u, d), !.th = th2], d |-> d]
       [] P.kind = "Split" ->
@@ -110,7 +118,7 @@ SimStep(P, st, x, rnd, want) ==
       [] P.kind = "DensitySplit" ->
            LET t2 == st.t + 1
                left == RatLess(<<st.cnt, t2>>, P.B)        \* budget > u / t
-               d == left /\ want
+               d == left /\ WantEff(P, x, st.th, want)
                th2 == IF ~left THEN st.th ELSE IF d THEN Down(P, st.th) ELSE Up(P, st.th)
            IN [st |-> [st EXCEPT !.t = t2, !.cnt = st.cnt + (IF d THEN 1 ELSE 0), !.th = th2],
                d |-> d]
